@@ -15,6 +15,9 @@
  *        killafter 0              <sys> <path> <nth>    SIGKILL right after the call returned
  *        hold  <ms> <events>      <sys> <path> <nth>    keep this thread stopped at the call's entry until
  *                                                       <events> other calls were entered or <ms> passed
+ *        holdq <maxms> <quietms>  <sys> <path> <nth>    keep this thread stopped until no thread of the program has
+ *                                                       entered any system call for <quietms> (everything else is
+ *                                                       blocked or done), or <maxms> passed
  *    <nth> = 0 means every occurrence; <path> = * matches anything; <sys> = * any logged call;
  * 3. with -S/-P/-M holds random threads at random calls (schedule exploration);
  * 4. enforces a wall-clock bound (-t): on expiry everything is killed and
@@ -84,7 +87,7 @@ static const struct sysdesc *lookup(long nr) {
 }
 
 /* ---- rules ---- */
-enum { A_FAIL, A_RET, A_CLAMP, A_KILL, A_KILLAFTER, A_HOLD };
+enum { A_FAIL, A_RET, A_CLAMP, A_KILL, A_KILLAFTER, A_HOLD, A_HOLDQ };
 struct rule { int act; long p1, p2; char sys[32]; char path[PATH_MAX]; long nth; long seen; };
 static struct rule rules[256];
 static int nrules;
@@ -99,7 +102,7 @@ struct thr {
     long long pos_in, pos_out;
     int inj; long long injval; int killafter;
     char injdesc[64];
-    int held; double hold_until; unsigned long hold_evs;
+    int held; double hold_until; unsigned long hold_evs; double hold_quiet;
     int started;
 };
 #define MAXT 512
@@ -109,6 +112,8 @@ static unsigned long seq;
 static unsigned long nentries;   /* number of logged-call entries so far (for hold release) */
 static const char *prefix = NULL;
 static pid_t rootpid;
+static double last_entry_ms = 0;
+static int quiet_logged = 0;
 static unsigned long long rngs = 0; static int hold_permille = 0; static int hold_maxms = 0;
 
 static double now_ms(void) { struct timespec ts; clock_gettime(CLOCK_MONOTONIC, &ts); return ts.tv_sec * 1e3 + ts.tv_nsec / 1e6; }
@@ -248,6 +253,7 @@ static void emit(struct thr *t, long long ret, int killed) {
 static void at_entry_stop(struct thr *t, struct user_regs_struct *r) {
     t->nr = (long)r->orig_rax;
     t->d = lookup(t->nr);
+    last_entry_ms = now_ms();
     t->logged = 0; t->inj = 0; t->killafter = 0; t->injdesc[0] = 0;
     if (!t->d) return;
     t->args[0] = r->rdi; t->args[1] = r->rsi; t->args[2] = r->rdx; t->args[3] = r->r10; t->args[4] = r->r8; t->args[5] = r->r9;
@@ -278,12 +284,13 @@ static void at_entry_stop(struct thr *t, struct user_regs_struct *r) {
             kill_all();
             return;
         case A_KILLAFTER: t->killafter = 1; snprintf(t->injdesc, sizeof t->injdesc, "killafter"); break;
-        case A_HOLD: t->held = 1; t->hold_until = now_ms() + ru->p1; t->hold_evs = ru->p2 ? nentries + ru->p2 : 0; break;
+        case A_HOLD: t->held = 1; t->hold_until = now_ms() + ru->p1; t->hold_evs = ru->p2 ? nentries + ru->p2 : 0; t->hold_quiet = 0; break;
+        case A_HOLDQ: t->held = 1; t->hold_until = now_ms() + ru->p1; t->hold_evs = 0; t->hold_quiet = ru->p2; break;
         }
     }
     if (t->inj) { r->orig_rax = (unsigned long long)-1; ptrace(PTRACE_SETREGS, t->tid, 0, r); }
     if (!t->held && hold_permille && t->nr != SYS_exit_group && (int)(rnd() % 1000) < hold_permille) {
-        t->held = 1; t->hold_until = now_ms() + (double)(rnd() % (hold_maxms * 1000 + 1)) / 1000.0; t->hold_evs = 0;
+        t->held = 1; t->hold_until = now_ms() + (double)(rnd() % (hold_maxms * 1000 + 1)) / 1000.0; t->hold_evs = 0; t->hold_quiet = 0;
     }
 }
 
@@ -316,6 +323,7 @@ static void load_rules(const char *path) {
         if (!strcmp(act, "fail")) ru->act = A_FAIL; else if (!strcmp(act, "ret")) ru->act = A_RET;
         else if (!strcmp(act, "clamp")) ru->act = A_CLAMP; else if (!strcmp(act, "kill")) ru->act = A_KILL;
         else if (!strcmp(act, "killafter")) ru->act = A_KILLAFTER; else if (!strcmp(act, "hold")) ru->act = A_HOLD;
+        else if (!strcmp(act, "holdq")) ru->act = A_HOLDQ;
         else { fprintf(stderr, "sup: bad action %s\n", act); exit(99); }
         if (++nrules >= 256) break;
     }
@@ -364,7 +372,9 @@ int main(int argc, char **argv) {
         nheld = 0;
         double nowt = now_ms();
         for (int k = 0; k < MAXT; k++) if (T[k].used && T[k].held) {
-            if (nowt >= T[k].hold_until || (T[k].hold_evs && nentries >= T[k].hold_evs)) {
+            int quiet = T[k].hold_quiet > 0 && nowt - last_entry_ms >= T[k].hold_quiet;
+            if (quiet && !quiet_logged) { quiet_logged = 1; fprintf(out, "{\"quiet\":%lu}\n", seq); fflush(out); }
+            if (nowt >= T[k].hold_until || (T[k].hold_evs && nentries >= T[k].hold_evs) || quiet) {
                 T[k].held = 0; ptrace(PTRACE_SYSCALL, T[k].tid, 0, 0);
             } else nheld++;
         }
